@@ -944,7 +944,6 @@ func stringConst(v ssa.Value) (string, bool) {
 	return s, true
 }
 
-
 // instrReaches: some execution can run a and later b.
 func instrReaches(a, b ssa.Instruction) bool {
 	if a.Block() == b.Block() {
@@ -954,4 +953,38 @@ func instrReaches(a, b ssa.Instruction) bool {
 		return inCycle(a.Block())
 	}
 	return reachable(a.Block(), nil)[b.Block()]
+}
+
+// controlConds returns the branch conditions block b is (transitively) control dependent on: the If conditions of
+// every block A with a successor that b post-dominates (or is) while b does not strictly post-dominate A.
+func controlConds(b *ssa.BasicBlock) []ssa.Value {
+	fn := b.Parent()
+	pd := postDominators(fn)
+	seen := map[*ssa.BasicBlock]bool{}
+	var out []ssa.Value
+	var walk func(t *ssa.BasicBlock)
+	walk = func(t *ssa.BasicBlock) {
+		for _, a := range fn.Blocks {
+			if len(a.Succs) != 2 || seen[a] {
+				continue
+			}
+			iff, ok := a.Instrs[len(a.Instrs)-1].(*ssa.If)
+			if !ok {
+				continue
+			}
+			dep := false
+			for _, s := range a.Succs {
+				if (s == t || pd[s][t]) && !(a != t && pd[a][t]) {
+					dep = true
+				}
+			}
+			if dep {
+				seen[a] = true
+				out = append(out, iff.Cond)
+				walk(a)
+			}
+		}
+	}
+	walk(b)
+	return out
 }
